@@ -1,0 +1,25 @@
+//go:build verif
+
+package file
+
+import (
+	"time"
+
+	"github.com/form3tech-oss/f1/v2/internal/trigger/api"
+)
+
+// VerifTotals exposes the unexported totals of a parsed config file to the external
+// verification harness: total duration of all stages, max-failures and max-failures-rate.
+func VerifTotals(r *RunnableStages) (time.Duration, uint64, int) {
+	return r.stagesTotalDuration, r.maxFailures, r.maxFailuresRate
+}
+
+// VerifStagesWorker returns the real stages worker for the parsed stages.
+func VerifStagesWorker(r *RunnableStages) api.WorkTriggerer {
+	return newStagesWorker(r.Stages)
+}
+
+// VerifDryRun returns the real dry-run rate function for the parsed stages.
+func VerifDryRun(r *RunnableStages) api.RateFunction {
+	return newDryRun(r.Stages)
+}
